@@ -3,6 +3,7 @@
 //   bundle_driver <out.ndjson> <seed> <bundle-cases> <sharp-cases>
 #include "counting.h"
 #include "objectives.h"
+#include <nano/core/verif.h>
 #include <nano/solver.h>
 #include <nano/solver/bundle.h>
 
@@ -214,9 +215,53 @@ void bundle_case(vt::Rng& rng, int64_t icase)
     }
 }
 
-void sharp_case(vt::Rng& rng, int64_t icase)
+// observer of the cutting plane model inside the bundle solvers (hook after every update of bundle_t): every stored cut must be a
+// lower bound of the (convex) objective - tested at the minimiser and at a few probe points -, with a non-negative linearisation
+// error, and the bundle must stay below its capacity (the invariants of Bundle.tla / BundleSize.tla on the real solver runs)
+struct model_watch_t
 {
-    const auto id = rng.pick(std::vector<std::string>{"rqb", "fpba1", "fpba2", "ellipsoid"});
+    std::vector<vector_t> m_points;
+    std::vector<double>   m_values;
+    int64_t               m_updates{0}, m_firstbad{-1};
+    bool                  m_cutsOK{true}, m_errsOK{true}, m_sizeOK{true};
+    double                m_worst{0.0};
+};
+model_watch_t* g_watch = nullptr;
+
+void watch_bundle(const char*, const void* object)
+{
+    if (g_watch == nullptr)
+    {
+        return;
+    }
+    auto&       w      = *g_watch;
+    const auto& bundle = *static_cast<const bundle_t*>(object);
+    ++w.m_updates;
+    w.m_sizeOK = w.m_sizeOK && bundle.size() >= 1 && bundle.size() < bundle.verif_capacity();
+    for (tensor_size_t i = 0; i < bundle.size(); ++i)
+    {
+        const auto s = bundle.verif_bundleS().vector(i);
+        const auto e = bundle.verif_bundleE()(i);
+        w.m_errsOK   = w.m_errsOK && e >= -1e-9 * (1.0 + std::fabs(bundle.fx()));
+        for (size_t k = 0; k < w.m_points.size(); ++k)
+        {
+            const auto lin   = s.dot(w.m_points[k].vector() - bundle.x().vector());
+            const auto lower = bundle.fx() + lin - e;
+            const auto tol   = 1e-8 * (1.0 + std::fabs(bundle.fx()) + std::fabs(lin) + std::fabs(e) + std::fabs(w.m_values[k]));
+            if (lower > w.m_values[k] + tol)
+            {
+                w.m_cutsOK   = false;
+                w.m_worst    = std::max(w.m_worst, lower - w.m_values[k]);
+                w.m_firstbad = w.m_firstbad < 0 ? w.m_updates : w.m_firstbad;
+            }
+        }
+    }
+}
+
+void sharp_case(vt::Rng& rng, int64_t icase, bool small_bundle = false)
+{
+    // small_bundle: the lower end of the bundle sizes (aggregation at nearly every step), bundle solvers only
+    const auto id = small_bundle ? rng.pick(std::vector<std::string>{"rqb", "fpba1", "fpba2", "fpba2"}) : rng.pick(std::vector<std::string>{"rqb", "fpba1", "fpba2", "ellipsoid"});
     const auto n  = rng.range(1, 8);
     matrix_t   A(n, n);
     const auto wide = rng.coin(1, 4);
@@ -247,7 +292,8 @@ void sharp_case(vt::Rng& rng, int64_t icase)
     solver->parameter("solver::max_evals") = evals;
     if (id != "ellipsoid")
     {
-        solver->parameter("solver::" + id + "::bundle::max_size") = rng.coin(1, 3) ? rng.pick(std::vector<int64_t>{2, 3, 100}) : rng.range(2, 100);
+        solver->parameter("solver::" + id + "::bundle::max_size") =
+            small_bundle ? rng.range(2, 6) : rng.coin(1, 3) ? rng.pick(std::vector<int64_t>{2, 3, 100}) : rng.range(2, 100);
         // curve-search / proximity parameters inside their domains (within a factor 4 of the defaults)
         if (rng.coin())
         {
@@ -276,15 +322,30 @@ void sharp_case(vt::Rng& rng, int64_t icase)
     }
     vt::counting_function_t counting(function);
     solver_state_t          state;
+    model_watch_t           watch;
+    watch.m_points.push_back(xstar);
+    watch.m_points.push_back(x0);
+    for (int k = 0; k < 4; ++k)
+    {
+        vector_t z = xstar.vector() + vt::random_x0(rng, n, k < 2 ? 0.01 : 5.0).vector();
+        watch.m_points.push_back(z);
+    }
+    for (const auto& z : watch.m_points)
+    {
+        watch.m_values.push_back(function.vgrad(z));
+    }
+    g_watch = &watch;
     try
     {
         state = solver->minimize(counting, x0, make_null_logger());
     }
     catch (const std::exception& e)
     {
+        g_watch = nullptr;
         vt::put(vt::J("Abort").s("why", e.what()).i("case", icase));
         return;
     }
+    g_watch = nullptr;
     const auto status = state.status() == solver_status::converged ? "converged" : state.status() == solver_status::failed ? "failed" : "max_iters";
     // gap recomputed from the driver's own objective (f* = 0 at x*)
     const auto gap   = function.vgrad(state.x());
@@ -297,7 +358,8 @@ void sharp_case(vt::Rng& rng, int64_t icase)
     }
     vt::put(vt::J("Sharp").i("case", icase).s("solver", id).i("n", n).s("status", status).b("gapOK", gap <= bound).b("mustConverge", id == "ellipsoid" && n <= 6).i(
         "evals", nF + nG).b("linf", linf).i("eps_e12", static_cast<int64_t>(std::llround(eps * 1e12))).i(
-        "dist_e6", static_cast<int64_t>(std::llround(dist0 * 1e6))));
+        "dist_e6", static_cast<int64_t>(std::llround(dist0 * 1e6))).i("updates", watch.m_updates).b("cutsOK", watch.m_cutsOK).b("errsOK", watch.m_errsOK).b(
+        "sizeOK", watch.m_sizeOK).i("firstbad", watch.m_firstbad).i("worst_e6", static_cast<int64_t>(std::llround(std::min(watch.m_worst, 1e3) * 1e6))));
 }
 
 // the recorded finding (known_findings.json, C03): with epsilon <= 5e-8 and a start very close to the minimiser the ellipsoid method
@@ -323,7 +385,8 @@ void known_ellipsoid_case(int64_t icase)
     const auto              status = state.status() == solver_status::converged ? "converged" : state.status() == solver_status::failed ? "failed" : "max_iters";
     const auto              gap    = function.vgrad(state.x());
     vt::put(vt::J("Sharp").i("case", icase).s("solver", "ellipsoid").i("n", n).s("status", status).b("gapOK", gap <= 10.0 * eps).b("mustConverge", true).i(
-        "evals", static_cast<int64_t>(counting.evals().size())).b("linf", false).i("eps_e12", 10000).i("dist_e6", static_cast<int64_t>(std::llround((x0 - xstar).lpNorm<2>() * 1e6))));
+        "evals", static_cast<int64_t>(counting.evals().size())).b("linf", false).i("eps_e12", 10000).i("dist_e6", static_cast<int64_t>(std::llround((x0 - xstar).lpNorm<2>() * 1e6))).i(
+        "updates", 0).b("cutsOK", true).b("errsOK", true).b("sizeOK", true).i("firstbad", -1).i("worst_e6", 0));
 }
 } // namespace
 
@@ -336,7 +399,8 @@ int main(int argc, char* argv[])
     }
     vt::Trace::get().open(argv[1]);
     vt::Rng    rng(static_cast<uint64_t>(std::atoll(argv[2])));
-    const auto nb = std::atoll(argv[3]), ns = std::atoll(argv[4]);
+    const auto nb = std::atoll(argv[3]), ns = std::atoll(argv[4]), nsmall = argc > 5 ? std::atoll(argv[5]) : 0;
+    ::nano::verif::object_sink().store(&watch_bundle);
     for (int64_t i = 0; i < nb; ++i)
     {
         bundle_case(rng, i);
@@ -345,8 +409,12 @@ int main(int argc, char* argv[])
     {
         sharp_case(rng, nb + i);
     }
+    for (int64_t i = 0; i < nsmall; ++i)
+    {
+        sharp_case(rng, nb + ns + i, true);
+    }
     known_ellipsoid_case(-2);
     vt::put(vt::J("Sharp").i("case", -1).s("solver", "end").i("n", 0).s("status", "max_iters").b("gapOK", true).b("mustConverge", false).i("evals", 0).b(
-        "linf", false));
+        "linf", false).i("updates", 0).b("cutsOK", true).b("errsOK", true).b("sizeOK", true));
     return 0;
 }
